@@ -12,6 +12,7 @@ Monitors:
 """
 import collections.abc
 import signal
+import re
 import sys
 import tracemalloc
 
@@ -445,6 +446,11 @@ def _positions(spec, mon, rec):
             v2 = {k: (hooks.CountingSource(None, name='$src') if isinstance(a.value, hooks.CountingSource) else a)
                   for k, a in vars_.items()}
             mon.limit_case(text, v2, n, where)
+            if not lambda_mode:
+                # the same position fed by a re-iterable host object (an __iter__-only collection without a length)
+                v3 = {k: (hooks.ReiterableSource(None, name='$src') if isinstance(a.value, hooks.CountingSource) else a)
+                      for k, a in vars_.items()}
+                mon.limit_case(text, v3, n, where + ':reiterable')
             if idx % 150 == 0:
                 rec.sample({'kind': 'source-position', 'text': text, 'N': n, 'where': where})
 
@@ -568,9 +574,33 @@ def mem_exprs(q, rng):
     return e
 
 
+BIGVAR_EXPRS = ['$big', '$big.len()', '[1, 2].select($big).len()', '[1, 2].where($big).len()', '$big and true', 'true and $big',
+                'switch($big => 1)', 'coalesce(null, $big).len()', '[1].select($big).first().len()', 'let(b => $big) -> 1',
+                '[$big].len()', '{a => $big}.len()', '$big = $big', 'def(f, $big) -> f().len()', '[1, 2].any($big)',
+                "'a'.join([$big]).len()", '[1, 2].toDict($, $big).len()', '$big?.len()', '[3].aggregate($big, 0).len()']
+
+
+def _bigvars(mon, rec, q):
+    """a value larger than the quota that sits in the context (bound by the host) is refused wherever an
+    expression reads it - as an eager argument, as the value of a lazy argument, as an operand or as the result"""
+    for big in ('x' * (q * 3), tuple(range(q // 4 + 10))):      # (a frozen dict's own size is that of its wrapper)
+        for text in BIGVAR_EXPRS:
+            if not isinstance(big, str) and ('join' in text):
+                continue
+            out = mon.memory_case(text, q, vars_={'big': cat.var(yutils.convert_input_data(big))})
+            rec.count('mem.bigvar_cases')
+            if out[0] == 'value' or (out[0] == 'exc' and not isinstance(out[1], yexc.MemoryQuotaExceededException)):
+                rec.violation('oversized-variable-read-unchecked:%s' % re.sub(r'[^a-zA-Z]+', '-', text)[:30].strip('-'),
+                              '%s with memoryQuota=%d and $big = a %s of %d bytes gave %s' % (
+                                  text, q, type(big).__name__, sys.getsizeof(big), _short(out)),
+                              {'kind': 'bigvar', 'text': text, 'q': q, 'big': type(big).__name__})
+
+
 def _memory(spec, mon, rec):
     rng = rng_for(spec['seed'], 'c08', spec['name'])
     q = spec['q']
+    if spec['part'] == 0:
+        _bigvars(mon, rec, q)
     MEM_CAP[0] = 12000 if spec['tier'] == 'thorough' else 6000
     exprs = mem_exprs(q, rng)
     rng.shuffle(exprs)
@@ -600,8 +630,9 @@ def _compose(spec, mon, rec):
     for i in range(spec['count']):
         n = rng.choice((1, 2, 3, 7, 20))
         text = rng.choice(HEADS) + ''.join(rng.choice(STAGES) for _ in range(rng.choice((0, 1, 1, 2, 3)))) + rng.choice(SINKS)
-        vars_ = {'src': hooks.CountingSource(None, name='$src')}
-        mon.limit_case(text, vars_, n, 'expr:composed', family='src')
+        cls = hooks.ReiterableSource if i % 3 == 2 else hooks.CountingSource
+        vars_ = {'src': cls(None, name='$src')}
+        mon.limit_case(text, vars_, n, 'expr:composed' + (':reiterable' if i % 3 == 2 else ''), family='src')
         if i % 200 == 0:
             rec.sample({'kind': 'composition', 'text': text, 'N': n})
 
